@@ -80,8 +80,22 @@ int32_t matrixSslValidatePeerCerts(ssl_t *ssl,
     }
 
     psCheckSetPathLenFailure(ssl, ssl->sec.cert);
+    if (rc < 0 && psCheckValidationResult(ssl, ssl->sec.cert) == PS_SUCCESS)
+    {
+        /* Validation failed without marking a certificate (for example
+           bad validation options or an unparseable date) */
+        ssl->err = SSL_ALERT_BAD_CERTIFICATE;
+    }
     rc = psCheckValidationResult(ssl,
             ssl->sec.cert);
+    if (rc == PS_SUCCESS &&
+            (ssl->keys == NULL || ssl->keys->CAcerts == NULL))
+    {
+        /* A valid self-signed certificate or chain, but no trust anchor
+           of ours has validated it (as in the TLS <=1.2 code path) */
+        ssl->err = SSL_ALERT_UNKNOWN_CA;
+        rc = MATRIXSSL_ERROR;
+    }
     if (rc < 0)
     {
         if (ssl->sec.validateCert == NULL)
@@ -203,8 +217,12 @@ int32_t psCheckValidationResult(ssl_t *ssl,
                 ssl->err = SSL_ALERT_UNKNOWN_CA;
             }
             break;
-
+        case PS_CERT_AUTH_PASS:
+            break;
         default:
+            /* Never evaluated (validation stopped early) or an
+               unclassified failure: not an authenticated certificate */
+            ssl->err = SSL_ALERT_BAD_CERTIFICATE;
             break;
         }
         cert = cert->next;
